@@ -29,6 +29,8 @@ import nfc.clf.device
 import nfc.tag
 import nfc.llcp.llc
 import nfc.dep
+import nfc.llcp
+import nfc.llcp.pdu
 
 
 class VirtualTime(object):
@@ -102,7 +104,8 @@ class StopRun(BaseException):
 
 DOMAINS = {'term': [False, True], 'cbs': 'TFN0xO', 'sense': 'nfpuics k'.replace(' ', ''), 'listen': 'nfbuik',
            'tagact': 'tnik', 'present': 'nyik', 'llcact': 'ftik',
-           'llcrun': [(0, 'r'), (1, 'r'), (2, 'r'), (1, 'k'), (0, 'i')], 'emulate': '10', 'cardstep': 'bncik'}
+           'llcrun': [(0, 'r'), (1, 'r'), (2, 'r'), (1, 'k'), (0, 'i')], 'emulate': '10', 'cardstep': 'bncik',
+           'xchg': 'oTXP', 'peer': 'sdx'}
 NO_LIMITS = dict((k, 0) for k in DOMAINS)
 
 
@@ -136,6 +139,11 @@ class World(object):
         self.llcrun = orc('llcrun', [tuple(x) for x in case.get('llcrun', [])], (0, 'r'))
         self.emulate = orc('emulate', case.get('emulate', ''), '0')
         self.cardstep = orc('cardstep', case.get('cardstep', ''), 'b')
+        self.xchg = orc('xchg', case.get('xchg', ''), 'o')      # live tag: what each device exchange does
+        self.peer = orc('peer', case.get('peer', ''), 's')      # live llc: what the peer answers
+        self.live = case.get('live')                            # None | 'tag' | 'llc'
+        self.in_activate = False
+        self.fed = 0
         self.objects = {}       # id(obj) -> (obj, name), for naming returned objects
         self.nobj = 0
 
@@ -148,6 +156,9 @@ class World(object):
         for k in ('listen', 'tagact', 'present', 'llcact', 'emulate', 'cardstep'):
             c[k] = ''.join(getattr(self, k).items)
         c['llcrun'] = [list(x) for x in self.llcrun.items]
+        if self.live:
+            c['xchg'] = ''.join(self.xchg.items)
+            c['peer'] = ''.join(self.peer.items)
         return c
 
     # --- naming of objects handed to the code under test
@@ -191,6 +202,13 @@ class World(object):
             return v
         return 'n'
 
+    def feed(self):
+        """live llc, busy case: the application queues the next datagram (bounded, so that a run that
+        ignores terminate() still ends)"""
+        if self.fed < 25 and getattr(self, 'llc', None) is not None:
+            self.fed += 1
+            self.llc.sendto(self.sock, b'DATA', 32, nfc.llcp.MSG_DONTWAIT)
+
     def throw(self, code, ctx=''):
         if code == 'u':
             self.ev.append('!raise:UnsupportedTargetError' + ctx)
@@ -205,6 +223,57 @@ class World(object):
             raise KeyboardInterrupt()
 
 
+def live_target(ttype, kind, o):
+    """discovery data of a real tag of the given type (o = 'p': also announces NFC-DEP, 's': bad SENS_RES)"""
+    H = bytearray.fromhex
+    if kind == 'tta':
+        if ttype == 't1':
+            t = nfc.clf.RemoteTarget('106A', sens_res=H('000C'), rid_res=H('1148B2565400'))
+        elif ttype == 't4a':
+            t = nfc.clf.RemoteTarget('106A', sens_res=H('0403'), sel_res=H('20'), sdd_res=H('04832F9A272D80'))
+        elif ttype == 't2n':
+            t = nfc.clf.RemoteTarget('106A', sens_res=H('4400'), sel_res=H('00'), sdd_res=H('04510CC2D73881'))
+        else:
+            t = nfc.clf.RemoteTarget('106A', sens_res=H('4400'), sel_res=H('00'), sdd_res=H('05510CC2D73881'))
+        if o == 'p' and t.sel_res is not None:
+            t.sel_res = bytearray([t.sel_res[0] | 0x40])
+        if o == 's':
+            t.sens_res = H('440000')
+        return t
+    if kind == 'ttb':
+        return nfc.clf.RemoteTarget('106B', sensb_res=H('50E8253EEC00000011008185'))
+    ic = {'t3': 'FF', 't3std': '01', 't3lite': 'F0', 't3lites': 'F1'}.get(ttype, 'FF')
+    idm = '01FE030405060708' if o == 'p' else '0102030405060708'
+    return nfc.clf.RemoteTarget('212F', sensf_res=H('01' + idm + '00' + ic + 'FFFFFFFFFFFF' + '12FC'))
+
+
+def canned_response(ttype, target, data):
+    """what a healthy tag of that type answers to the commands used for activation and presence check;
+    None = no answer (the command is not supported: timeout)"""
+    c = data[0]
+    if ttype == 't1':
+        if c == 0x01 and len(data) >= 2:        # READ byte
+            return bytearray([data[1], target.rid_res[2] if data[1] == 0 else 0])
+        return None
+    if ttype in ('t2', 't2n'):
+        if c == 0x30:                           # READ
+            return bytearray(16)
+        if c == 0x60 and ttype == 't2n':        # GET_VERSION (an unknown product: plain Type2Tag)
+            return bytearray(b"\x00\x04\x04\x02\x01\x00\x7F\x03")
+        return None
+    if ttype in ('t4a', 't4b'):
+        if c == 0xE0:
+            return bytearray.fromhex('0578807002')
+        if c == 0x1D:
+            return bytearray(b'\x00')
+        if c & 0xF6 == 0xB2:                    # R(NAK) presence check -> R(ACK)
+            return bytearray([0xA2 | (c & 1)])
+        return None
+    if len(data) >= 2 and data[1] == 0x00 and target.sensf_res is not None:      # polling
+        return bytearray([18, 1]) + target.sensf_res[1:17]
+    return None
+
+
 class ScriptedDevice(nfc.clf.device.Device):
     def __init__(self, world):
         self.w = world
@@ -213,7 +282,6 @@ class ScriptedDevice(nfc.clf.device.Device):
         self._device_name = 'Scripted'
         self._chipset_name = 'none'
         self.mutes_in_call = 0
-        self.burst = 0
 
     def close(self):
         self.w.ev.append('close')
@@ -221,6 +289,9 @@ class ScriptedDevice(nfc.clf.device.Device):
     def mute(self):
         if len(self.w.ev) > 200000:
             raise StopRun()       # safety net for runs without terminate()
+        if self.w.in_activate:
+            self.w.ev.append('!mute')      # re-sense from inside a tag activation (Type 2 Tag)
+            return
         self.w.ev.append('mute')
         # iteration bookkeeping: the first mute of a sense call is the field reset, every further
         # one ends an iteration (begin_sense is signalled by ObservedCLF.sense)
@@ -229,6 +300,10 @@ class ScriptedDevice(nfc.clf.device.Device):
             self.w.sense_iter += 1
 
     def _sense(self, kind, target):
+        if self.w.in_activate:
+            self.w.ev.append('!resense')
+            t = live_target(self.w.case.get('ttype', 't3'), kind, 'f')
+            return self.w.name(t, 'rt:again')
         pos = target._pos if target._pos is not None else -1
         self.w.ev.append('sense_%s:%d' % (kind, pos))
         o = self.w.sense_outcome(pos)
@@ -236,6 +311,11 @@ class ScriptedDevice(nfc.clf.device.Device):
         if o == 'n':
             return None
         brty = {'tta': '106A', 'ttb': '106B', 'ttf': '212F', 'dep': target.brty}[kind]
+        if self.w.live == 'tag' and kind != 'dep':
+            t = live_target(self.w.case.get('ttype', 't3'), kind, o)
+            t._found = (self.w.sense_call, self.w.sense_iter, pos)
+            self.w.name(t, 'rt:%d:%d:%d' % t._found)
+            return t
         t = nfc.clf.RemoteTarget(brty)
         t._found = (self.w.sense_call, self.w.sense_iter, pos)
         t.sens_res = bytearray.fromhex('4400')
@@ -297,18 +377,21 @@ class ScriptedDevice(nfc.clf.device.Device):
         return self._listen('dep', target, timeout)
 
     def send_cmd_recv_rsp(self, target, data, timeout):
-        if getattr(self.w, 'live', False):
-            # live Type 3 Tag: every presence check is a polling command (sent up to 3 times)
-            if self.burst > 0:
-                self.burst -= 1
+        if self.w.live == 'tag':
+            # live tag: every exchange of the real tag code (activation commands, presence checks)
+            # answers, or fails with one of the CommunicationError subclasses
+            o = self.w.xchg.next()
+            self.w.ev.append('!xchg:' + o)
+            if o == 'i':
+                self.w.throw('i')
+            rsp = canned_response(self.w.case.get('ttype', 't3'), target, bytearray(data)) if o == 'o' else None
+            if o == 'X':
+                raise nfc.clf.TransmissionError('scripted')
+            if o == 'P':
+                raise nfc.clf.ProtocolError('scripted')
+            if rsp is None:
                 raise nfc.clf.TimeoutError('scripted')
-            self.w.ev.append('present?')
-            o = self.w.present.next()
-            self.w.throw(o)
-            if o != 'y':
-                self.burst = 2
-                raise nfc.clf.TimeoutError('scripted')
-            return bytearray([18, 1]) + target.sensf_res[1:17]
+            return rsp
         self.w.ev.append('cmd>%s' % self.w.nameof(target))
         return bytearray(b'\x00')
 
@@ -413,18 +496,99 @@ def make_local(code):
     return t
 
 
+class LiveLLC(nfc.llcp.llc.LogicalLinkController):
+    """the REAL LogicalLinkController (activate, run loops, collect, dispatch, terminate); the run loops
+    are only wrapped to record their start and how often terminate() was consulted"""
+    world = None
+
+    def activate(self, mac, **options):
+        r = super(LiveLLC, self).activate(mac, **options)
+        LiveLLC.world.ev.append('!llc:%d' % bool(r))
+        return r
+
+    def _wrapped(self, real, terminate):
+        w = LiveLLC.world
+        w.ev.append('llc_run')
+        n0 = w.polls
+        try:
+            return real(terminate)
+        finally:
+            w.llcrun.items.append((w.polls - n0, 'r'))
+            w.llcrun.pos = len(w.llcrun.items)
+
+    def run_as_initiator(self, terminate=lambda: False):
+        return self._wrapped(super(LiveLLC, self).run_as_initiator, terminate)
+
+    def run_as_target(self, terminate=lambda: False):
+        return self._wrapped(super(LiveLLC, self).run_as_target, terminate)
+
+
+def _peer_exchange(w, send_data):
+    """the scripted remote peer of the live llc part: answers SYMM, disconnects or is gone; in 'busy'
+    cases it is also the application that keeps the next datagram queued (like a sender thread)"""
+    w.ev.append('!xchg')
+    if w.case.get('busy') and send_data is not None and bytes(send_data).endswith(b'DATA'):
+        w.feed()
+    o = w.peer.next()
+    if o == 'd':
+        return bytearray(b'\x01\x40')       # DISC
+    if o == 'x':
+        return None                          # link disruption
+    return bytearray(b'\x00\x00')           # SYMM
+
+
+class LiveInitiatorMAC(nfc.dep.Initiator):
+    world = None
+
+    def activate(self, target=None, **options):
+        w = LiveInitiatorMAC.world
+        w.ev.append('llc_activate:initiator')
+        o = w.llcact.next()
+        w.throw(o)
+        self.rwt = 0.01
+        return bytearray(b'Ffm\x01\x01\x13') if o == 't' else None
+
+    def exchange(self, send_data, timeout):
+        return _peer_exchange(LiveInitiatorMAC.world, send_data)
+
+    def deactivate(self, release=True):
+        LiveInitiatorMAC.world.ev.append('!deactivate')
+
+
+class LiveTargetMAC(nfc.dep.Target):
+    world = None
+
+    def activate(self, timeout=None, **options):
+        w = LiveTargetMAC.world
+        w.ev.append('llc_activate:target')
+        o = w.llcact.next()
+        w.throw(o)
+        self.rwt = 0.01
+        return bytearray(b'Ffm\x01\x01\x13') if o == 't' else None
+
+    def exchange(self, send_data, timeout):
+        return _peer_exchange(LiveTargetMAC.world, send_data)
+
+    def deactivate(self, data=bytearray()):
+        LiveTargetMAC.world.ev.append('!deactivate')
+
+
 class Session(object):
-    """rebinds the module attributes for the duration of one case and restores them"""
+    """rebinds the module attributes for the duration of one case and restores them.
+    case['live'] = 'tag': the real nfc.tag.activate and the real presence checks of the tag classes run
+    over the scripted device; 'llc': the real LogicalLinkController runs over scripted MAC objects"""
 
     def __init__(self, case, live=False, **kw):
+        if live and not case.get('live'):
+            case = dict(case, live='tag')
         self.w = World(case, **kw)
-        self.w.live = live
         self.saved = None
 
     def __enter__(self):
         w = self.w
         self.saved = (nfc.clf.device.connect, nfc.tag.activate, nfc.tag.emulate,
-                      nfc.llcp.llc.LogicalLinkController, nfc.clf.time)
+                      nfc.llcp.llc.LogicalLinkController, nfc.clf.time,
+                      nfc.tag.Tag.is_present, nfc.dep.Initiator, nfc.dep.Target, nfc.llcp.llc.time)
         dev = ScriptedDevice(w)
         self.dev = dev
         nfc.clf.device.connect = lambda path: dev
@@ -449,31 +613,62 @@ class Session(object):
             return w.name(ScriptedEmulation(clf, target, w), 'emu')
 
         real_activate = self.saved[1]
+        real_is_present = self.saved[5]
+
+        def fill(orc, code):
+            orc.items.append(code)
+            orc.pos = len(orc.items)
 
         def live_activate(clf, target):
             # the REAL nfc.tag.activate; only recorded.  The oracle stream is filled with what happened
             w.ev.append('tag_activate:%s' % w.nameof(target))
-            tag = real_activate(clf, target)
-            w.tagact.items.append('t' if tag is not None else 'n')
-            w.tagact.pos = len(w.tagact.items)
+            w.in_activate = True
+            try:
+                tag = real_activate(clf, target)
+            except IOError:
+                fill(w.tagact, 'i')
+                raise
+            finally:
+                w.in_activate = False
+            fill(w.tagact, 't' if tag is not None else 'n')
             w.ev.append('!tag:%d' % (tag is not None))
             return tag if tag is None else w.name(tag, 'tag')
 
-        nfc.tag.activate = live_activate if w.live else activate
+        def live_is_present(tag):
+            w.ev.append('present?')
+            try:
+                r = real_is_present.fget(tag)
+            except IOError:
+                fill(w.present, 'i')
+                raise
+            fill(w.present, 'y' if r else 'n')
+            return r
+
+        nfc.tag.activate = live_activate if w.live == 'tag' else activate
+        if w.live == 'tag':
+            nfc.tag.Tag.is_present = property(live_is_present)
         nfc.tag.emulate = emulate
-        nfc.llcp.llc.LogicalLinkController = ScriptedLLC
+        if w.live == 'llc':
+            LiveLLC.world = LiveInitiatorMAC.world = LiveTargetMAC.world = w
+            nfc.llcp.llc.LogicalLinkController = LiveLLC
+            nfc.dep.Initiator = LiveInitiatorMAC
+            nfc.dep.Target = LiveTargetMAC
+            nfc.llcp.llc.time = VirtualTime()
+        else:
+            nfc.llcp.llc.LogicalLinkController = ScriptedLLC
 
         class ObservedCLF(nfc.clf.ContactlessFrontend):
             # instrumentation only: marks the start of a sense call for the oracle lookup
             def sense(self_, *targets, **options):
-                w.sense_call += 1
-                w.sense_iter = 0
-                dev.mutes_in_call = 0
-                for i, t in enumerate(targets):
-                    try:
-                        t._pos = i
-                    except AttributeError:
-                        pass
+                if not w.in_activate:
+                    w.sense_call += 1
+                    w.sense_iter = 0
+                    dev.mutes_in_call = 0
+                    for i, t in enumerate(targets):
+                        try:
+                            t._pos = i
+                        except AttributeError:
+                            pass
                 return super(ObservedCLF, self_).sense(*targets, **options)
 
         self.clf = ObservedCLF('scripted')
@@ -481,8 +676,9 @@ class Session(object):
 
     def __exit__(self, *a):
         (nfc.clf.device.connect, nfc.tag.activate, nfc.tag.emulate,
-         nfc.llcp.llc.LogicalLinkController, nfc.clf.time) = self.saved
-        ScriptedLLC.world = None
+         nfc.llcp.llc.LogicalLinkController, nfc.clf.time,
+         nfc.tag.Tag.is_present, nfc.dep.Initiator, nfc.dep.Target, nfc.llcp.llc.time) = self.saved
+        ScriptedLLC.world = LiveLLC.world = LiveInitiatorMAC.world = LiveTargetMAC.world = None
 
 
 def classify_value(w, v):
@@ -527,6 +723,11 @@ def build_connect_options(w, case):
         def f(arg):
             v, c = w.cbvalue()
             w.ev.append('%s:%s:%s' % (name, block, c))
+            if w.live == 'llc' and case.get('busy') and block == 'llcp' and name == 'connect':
+                w.llc = arg
+                w.sock = arg.socket(nfc.llcp.LOGICAL_DATA_LINK)
+                arg.bind(w.sock)
+                w.feed()
             return v
         return f
 
@@ -572,6 +773,9 @@ def build_connect_options(w, case):
                 d[name] = cb('llcp', key)
         if l_.get('role') is not None:
             d['role'] = l_['role']
+        if w.live == 'llc':
+            d['sec'] = False
+            d['agf'] = False
         opts['llcp'] = d
     c_ = case.get('card')
     if c_ is not None:
